@@ -463,8 +463,22 @@ func decStrVariants(mode int, s string) []string {
 	for _, e := range []byte{0x31, 0x32, 0x7a, 0x30} {
 		res = append(res, s+string([]byte{e}))
 	}
+	// single-character insertions ('1' = a leading zero byte in base58, 'z') and deletions, at every position
+	// around the prefix / version boundary and at every 16th position after it
+	for i := range b {
+		if !decStrEditPos(i) {
+			continue
+		}
+		for _, e := range []byte{0x31, 0x7a} {
+			res = append(res, s[:i]+string([]byte{e})+s[i:])
+		}
+		res = append(res, s[:i]+s[i+1:])
+	}
 	return res
 }
+
+// decStrEditPos mirrors Pool.Dec.strEditPos.
+func decStrEditPos(i int) bool { return i < 12 || i%16 == 0 }
 
 // decClassify mirrors Pool.Dec.classify.
 func decClassify(orig, r decOutcome) byte {
